@@ -53,6 +53,16 @@ CHECKS = {
             "np.linalg.eig-based kernels (whitening, peig/leig) are driven with eigenvalues separated by a relative gap >= 1e-3; get_principal_component_matrix only on tall/square inputs (its domain in the library).",
             "defining-identity oracles with condition-number-scaled tolerances",
             "DESIGN.md §5 C20"),
+    "C13": ("exploration",
+            "Every model (general, free-space, 3GPP, METIS PS7 with int/array wall counts, Okumura-Hata x 4 areas) is built, driven "
+            "through histories of valid and invalid setter calls interleaved with queries, and each scalar/1-D/2-D/3-D distance query "
+            "(6+ decades, straddling the too-small threshold found by bisection) is compared element-wise with scalar queries on a "
+            "FRESH object carrying the final parameters; monotonicity, linear value in (0,1], inverse queries, Friis (0.01 dB) and "
+            "closed-form anchors, raise/clamp policy, setter validation, and the sector/omni antenna pattern (peak, symmetry, floor, "
+            "value, scalar==array) are monitored on every call.",
+            "Shadowing (random by design) is off; antenna pattern constants are those of 3GPP 25.996 (70 deg/20 dB/14 dBi, 35 deg/23 dB/17 dBi).",
+            "reference-model (fresh object) comparison + relation monitors over generated setter/query histories",
+            "DESIGN.md §5 C13"),
 }
 
 PENDING_REASON = "check not built yet in this session (design in DESIGN.md §5); will be claimed once its monitors run clean on the unchanged tree"
